@@ -37,13 +37,15 @@ def run(ctx):
         if rnd.random() < 0.5 and parts:
             for _ in range(rnd.randint(1, 2)): parts.insert(rnd.randint(0, len(parts)), b'} x'); regions += 1
         data = b'\n'.join(parts) + b'\n'
+        cut = rnd.random() < 0.25
+        if cut: data += rnd.choice([b'[3,', b'{"a": ', b'"abc', b'tru', b'-', b'[1, 2', b'{"k"'])      # input cut off inside its last value
         if rnd.random() < 0.2:
             cfg['select'] = cfg['select'] + ['(nope .)']         # invalid configuration
         if rnd.random() < 0.15: cfg['rowsep'] = rnd.choice([';', ' | '])          # no line break: nothing is flushed until the end
         mode = rnd.choice(['pipe', 'pipe', 'pipe', 'full', 'closed'])
         c = mkcase('B%d' % i, cfg, data)
         if mode != 'pipe': c['out_room'] = 0
-        cases.append(c); jobs.append((c, mode, regions))
+        c['_cut'] = cut and not any('nope' in x for x in cfg['select']); cases.append(c); jobs.append((c, mode, regions))
     model = lib.run_model(cases)
     results = {}
     def work(js):
@@ -66,6 +68,8 @@ def run(ctx):
         m_exit = 0 if m['result'] == 'ok' else 255
         # exit status 0 exactly when the run succeeded, non-zero with a message on stderr otherwise
         if rc != 0 and not err.strip(): V('a failing run leaves a message on standard error', 'exit %d, empty stderr' % rc)
+        if mode == 'pipe' and c.get('_cut') and cfg['on_error'] == 'panic' and cfg['take'] is None and rc == 0:
+            V('--on-error=panic: an input cut off inside its last value fails the run (non-zero status, message on standard error)', 'exit 0', 'non-zero')
         if mode == 'pipe':
             eo = lib.ERRLINE.findall(out); ee = [l for l in err.split(b'\n') if l.startswith(b'error:')]
             if cfg['on_error'] == 'stderr':
@@ -83,7 +87,7 @@ def run(ctx):
             if would_write and rc == 0: V('a run whose output cannot be written exits with a non-zero status', 'exit 0 with stdout %s' % mode, 'non-zero')
             if (rc == 0) != (m_exit == 0) and would_write: mism.append({'case': common.describe(c), 'impl': rc, 'model': m_exit, 'why': 'exit status differs (%s stdout)' % mode})
     cov = {'evaluations': len(cases), 'distinct_nontrivial': len(set((tuple(lib.cfg_args(c['cfg'])), c['inputs'][0]['data'], md) for c, md, _ in jobs)),
-           'rule': 'the real binary as a child process on generated clean/noisy inputs x the four --on-error policies x valid and invalid configurations x stdout a pipe, a closed pipe, or /dev/full; row separators with and without a line break',
+           'rule': 'the real binary as a child process on generated clean/noisy inputs (some cut off inside their last value) x the four --on-error policies x valid and invalid configurations x stdout a pipe, a closed pipe, or /dev/full; row separators with and without a line break',
            'samples': [dict(common.describe(c), stdout_mode=md) for c, md, _ in jobs[:2]],
            'traces_validated_against_impl': len(cases) - len(mism), 'model_mismatches': len(mism), 'direct_relations_checked': checked}
     broken = ['correspondence: model and executable differ on %d cases, e.g. %s' % (len(mism), json.dumps(mism[0], default=str)[:1500])] if mism else []
